@@ -375,3 +375,7 @@ func Quiesce(d time.Duration) {
 	}
 	time.Sleep(300 * time.Millisecond)
 }
+
+// CallerFile declares what runtime.Caller reports under the engine (natively
+// the real call site is reported).
+func CallerFile(file string, line int) {}
